@@ -238,3 +238,11 @@ Example cf_serialize_example :
   (cf <- cf_parse [0;1;2;3;4;5;6;7;8;9;10;11;12;13;14;15] [2;72;15;128;0;0] ;; cf_serialize cf)
   = Ok [2;72;15;128;0;0].
 Proof. vm_compute. reflexivity. Qed.
+
+(* The constants written in the model are the constants of the SOURCE: coq/Generated/SrcConsts.v is regenerated
+   from /repo/buidl/*.py by harness/gen_coq_consts.py on every run; the statements are spelled out in
+   Proofs/ConstsTie.v (golomb_is_source_stmt, bloom_is_source_stmt). *)
+From V Require Proofs.ConstsTie.
+Theorem C18_constants_match_source : ConstsTie.golomb_is_source_stmt /\ ConstsTie.bloom_is_source_stmt.
+Proof. exact (conj ConstsTie.golomb_is_source ConstsTie.bloom_is_source). Qed.
+Print Assumptions C18_constants_match_source.
